@@ -1550,7 +1550,14 @@ impl Zeroconf {
             self.probing_handler();
 
             // check IP changes if next_ip_check is reached.
-            if now >= next_ip_check && next_ip_check > 0 {
+            if self.ip_check_interval == 0 {
+                // The checks are disabled (possibly at run time): no timer.
+                next_ip_check = 0;
+            } else if next_ip_check == 0 {
+                // The checks were enabled at run time: start the cycle.
+                next_ip_check = now + self.ip_check_interval;
+                self.add_timer(next_ip_check);
+            } else if now >= next_ip_check {
                 next_ip_check = now + self.ip_check_interval;
                 self.add_timer(next_ip_check);
 
